@@ -55,6 +55,7 @@ def _close(a, b, scale):
 
 def check_dense_record(rec, U, pos, shanks, ncc, thr, what, info=None):
     """All clauses for an automatically selected dense record."""
+    require(rec is not None, what + ': no record returned', key='no-record')
     o = O.DenseRecord(U, pos, shanks, ncc, thr)
     ch = np.asarray(rec.channel_ids).astype(np.int64)
     scale = float(np.max(np.abs(U))) or 1.0
@@ -137,6 +138,7 @@ def check(case):
                             what = 'get_template(%d, channel_ids=%r)' % (t, ex)
                             rec = must_return(what, m.get_template, t, channel_ids=exa,
                                               unwhiten=unwhiten)
+                            require(rec is not None, what + ': no record returned', key='no-record')
                             require(np.array_equal(rec.channel_ids, exa), what + ': channel_ids',
                                     key='explicit-ids', observed=rec.channel_ids, expected=ex)
                             require(_close(rec.template, U[:, exa], np.max(np.abs(U)) or 1.0),
@@ -146,6 +148,7 @@ def check(case):
                     else:
                         what = 'get_template(%d, unwhiten=%r) [sparse]' % (t, unwhiten)
                         rec = must_return(what, m.get_template, t, unwhiten=unwhiten)
+                        require(rec is not None, what + ': no record returned', key='no-record')
                         cols = [int(c) for c in T.tcols[t]]
                         W = np.asarray(T.templates[t], dtype=np.float64)
                         keep, dontcare = O.sparse_kept(W, cols)
